@@ -188,6 +188,23 @@ func modelFailed(s string) bool {
 	return strings.HasPrefix(s, "EXC ") || strings.HasPrefix(s, "DRIVER-ERROR") || s == "BADOP" || s == "BAD"
 }
 
+// Explained reports whether an oracle failure on this case is exactly the behaviour of a
+// recorded deviation flag: the implementation agrees with the model under the known flags,
+// and that differs from the specification model. Such cases are counted, not reported
+// (the finding's own witness prints the KNOWN-FINDING line).
+func (c *Ctx) Explained(w int, op string, impl string, args ...[]byte) bool {
+	cur := c.Pool.Ask(w, drv.Req("c", op, args...))
+	if cur != impl {
+		return false
+	}
+	none := c.Pool.Ask(w, drv.Req("n", op, args...))
+	if none == cur {
+		return false
+	}
+	c.Count("oracle_failures_explained_by_recorded_flags", 1)
+	return true
+}
+
 // CheckCase = Impl + Tie + report. Returns true when no violation.
 func (c *Ctx) CheckCase(w int, op string, theorem string, args ...[]byte) bool {
 	impl := c.Impl(w, op, args...)
